@@ -1286,6 +1286,12 @@ def check(pid, tier, seed):
             with R.Lock():
                 ok_tr, _ = R.lake_build(["UnicLocale.SrcTie.Transfer"])
             source_tie["transfer_theorems"] = "UL.SrcTie.Transfer.* built" if ok_tr else "UL.SrcTie.Transfer does not build"
+        if pid in ("C10", "C12", "C17") and source_tie["proved"] == source_tie["of"]:
+            with R.Lock():
+                ok_tr, _ = R.lake_build(["UnicLocale.SrcTie.TransferOps"])
+            source_tie["transfer_theorems"] = ("UL.SrcTie.TransferOps.* built (UL.Src.step = step for every operation; the history theorems hold of "
+                                               "histories run on the source-derived mutators, getters, printer and parser)"
+                                               if ok_tr else "UL.SrcTie.TransferOps does not build")
         if pid in ("C06", "C07", "C08", "C14") and source_tie["proved"] == source_tie["of"]:
             with R.Lock():
                 ok_tr, _ = R.lake_build(["UnicLocale.SrcTie.TransferLikely"])
